@@ -91,7 +91,50 @@ def make(pid, ma, mb, profile, idx, seed, alias=False, discriminate=False):
                    solo=is_async and (len(profile) > 2 or max(profile) > 1), unwind=64 if not is_async else 12, weight=2)
 
 
+def send_only(pid, ma, mb):
+    """branch values that are Send + 'static but not Sync (and not Clone / Copy): exactly what the property requires of them"""
+    is_async, is_try, _ = KINDS[ma]
+    msg = lambda t: "\"C07[%s]: %s\"" % (pid, t)
+    L = ["names_off();", "let p0 = u(); let p1 = u(); let p2 = u();"]
+    if not is_async:
+        w = (lambda x: "Some(sendonly(%s))" % x) if is_try else (lambda x: "sendonly(%s)" % x)
+        op = "|>" if is_try else "->"
+        ta = "%s! { %s %s move |v: SendOnly| SendOnly(v.0 ^ 1, v.1), %s ~%s move |v: SendOnly| v, %s }" % (ma, w("p0"), op, w("p1"), op, w("p2"))
+        tb = ta.replace(ma + "!", mb + "!", 1)
+        L.append("let ra = %s;" % ta)
+        L.append("reset(); names_off();")
+        L.append("let rb = %s;" % tb)
+        exp = "(sendonly(p0 ^ 1), sendonly(p1), sendonly(p2))"
+        L.append("vassert!(ra == rb && rb == %s, %s);" % ("Some(%s)" % exp if is_try else exp, msg("%s! and %s! agree on Send + 'static (not Sync, not Clone) values" % (ma, mb))))
+        L.append("vassert!(t_spawned() == 3, %s);" % msg("one thread per branch of the three-branch step (the single-branch step runs on the caller)"))
+    else:
+        w = (lambda x: "ready(mk2(sendonly(%s)))" % x) if is_try else (lambda x: "ready(sendonly(%s))" % x)
+        f0 = "move |r: Result<SendOnly, u8>| r.map(|v| SendOnly(v.0 ^ 1, v.1))" if is_try else "move |v: SendOnly| SendOnly(v.0 ^ 1, v.1)"
+        f1 = "move |r: Result<SendOnly, u8>| r" if is_try else "move |v: SendOnly| v"
+        ta = "%s! { %s |> %s, %s ~|> %s, %s }" % (ma, w("p0"), f0, w("p1"), f1, w("p2"))
+        tb = ta.replace(ma + "!", mb + "!", 1)
+        L.append("let ra = { let mut f = %s; poll_once(&mut f) };" % ta)
+        L.append("reset(); names_off();")
+        L.append("let rb = { let mut f = %s; poll_once(&mut f) };" % tb)
+        exp = "(sendonly(p0 ^ 1), sendonly(p1), sendonly(p2))"
+        L.append("vassert!(ra == rb && rb == Poll::Ready(%s), %s);" % ("Ok(%s)" % exp if is_try else exp, msg("%s! and %s! agree on Send + 'static (not Sync, not Clone) values" % (ma, mb))))
+        L.append("vassert!(k_spawned() >= 3, %s);" % msg("tasks were spawned"))
+    L.append("vcover!(true, \"end reached\");")
+    items = "fn mk2<T>(v: T) -> Result<T, u8> { Ok(v) }" if is_async and is_try else ""
+    return Program(pid, ta + "\n  vs\n" + tb, "    " + "\n    ".join(L), items=items, desc=dict(pair=[ma, mb], values="Send + 'static, !Sync, !Clone"), group="send-only/%s~%s" % (ma, mb),
+                   role=dict(kind=mb), solo=is_async, unwind=64 if not is_async else 12, weight=2)
+
+
 def programs(tier, seed):
+    ps = programs_main(tier, seed)
+    i = 900
+    for ma, mb in PAIRS_SYNC + PAIRS_ASYNC + [("join", "spawn"), ("try_join", "try_spawn"), ("join_async", "async_spawn"), ("try_join_async", "try_async_spawn")]:
+        i += 1
+        ps.append(send_only("p%04d" % i, ma, mb))
+    return ps
+
+
+def programs_main(tier, seed):
     ps = []
     i = 0
     profs = profiles(3, 3) if tier == "thorough" else [pr for pr in profiles(3, 3) if sum(pr) <= 5]
